@@ -125,7 +125,8 @@ def model_match(pat, name):
 def pclass(pat):
     """Finite class of a pattern text; the unit of the violation signature."""
     if pat.startswith('"'):
-        return "quoted"
+        inner = pclass(pat.strip('"')) if len(pat.strip('"')) >= 4 else "quoted"
+        return inner if inner in ("unterminated-bracket", "double-star") else "quoted"
     toks = tokenize(pat)
     if len(pat.encode()) < 4 or (all(t[0] in ("lit", "esc") for t in toks) and len(toks) < 4):
         return "short-prefix<4"
@@ -692,7 +693,9 @@ def one_case(ctx, i):
                         cands.append((dd, p))
         hit = False
         unjudged = False
-        for k, (dd, p) in enumerate(cands[:6]):
+        # patterns that (per the model) match this section name first: they are the likely culprits
+        cands.sort(key=lambda c: 0 if model_match(c[1], s["name"]) else 1)
+        for k, (dd, p) in enumerate(cands[:8]):
             res = examine_cached(ctx, f"{i}", s, dd, p, f"{i}-s{s['id']}-{k}", guess)
             if res == UNJUDGED:
                 unjudged = True
@@ -794,7 +797,7 @@ def main(ctx):
                        "it (e.g. backslash escapes, which ld 2.40 compares literally in its prefix pre-check) are "
                        "inconclusive", "both linkers get --gc-sections; dead sections GNU ld discards are not judged"]
     tools.wild()
-    n = ctx.pick(150, 3000)
+    n = ctx.pick(150, 1000)
     jobs = [("p", 0)] + [("c", i) for i in range(n)]
     if ctx.replay is not None:
         c = str(ctx.replay.get("case"))
